@@ -667,6 +667,12 @@ type exch struct {
 	Pre     string `json:"pre"`    // "", "dir", "file", "symlink": object put at PrePath before the exchange
 	PrePath string `json:"pre_at"` // where
 	Watch   string `json:"watch"`  // extra path to watch
+	// SetDeclared: call Stream.SetPeerAddr(Declared) on the client stream before the
+	// exchange: the stream's DECLARED peer address (configured / advertised / imported)
+	// as opposed to the live connection's RemoteAddr (Peer), which is the endpoint
+	// an address-qualified name must name.
+	SetDeclared bool   `json:"set_declared"`
+	Declared    string `json:"declared"`
 }
 
 type exchObs struct {
@@ -714,7 +720,11 @@ func runExchange(w *world, e exch) (o exchObs, err error) {
 	ctx, cancel := context.WithTimeout(context.Background(), 35*time.Second)
 	defer cancel()
 	cfg := &security.SecurityConfig{AuthMethods: []security.AuthMethod{security.AuthFS}, Authentication: security.SecurityRequired}
-	auth := security.NewAuthenticator(cfg, stream.NewStream(cconn))
+	cstream := stream.NewStream(cconn)
+	if e.SetDeclared {
+		cstream.SetPeerAddr(e.Declared)
+	}
+	auth := security.NewAuthenticator(cfg, cstream)
 
 	done := make(chan struct{})
 	var cerr error
@@ -923,7 +933,11 @@ func judgeExchange(e exch, o exchObs) (key, msg string) {
 	}
 	if !ok {
 		if len(o.mid) > 0 {
-			return "effect-for-rejected-path", fmt.Sprintf("server-supplied path %q (not acceptable: %s) made the client create %q", path, why, o.mid)
+			extra := ""
+			if e.SetDeclared {
+				extra = fmt.Sprintf(" [live peer %q, stream's declared peer address %q]", e.Peer.Addr, e.Declared)
+			}
+			return "effect-for-rejected-path", fmt.Sprintf("server-supplied path %q (not acceptable: %s) made the client create %q%s", path, why, o.mid, extra)
 		}
 		if o.replyRead && o.reply != -1 {
 			return "reply-not-failure", fmt.Sprintf("server-supplied path %q (not acceptable: %s) got reply %d instead of -1", path, why, o.reply)
@@ -998,6 +1012,9 @@ type scenario struct {
 	peer   peer
 	pre    string
 	watch  func(u string) string
+	// declared peer address of the stream (SetPeerAddr), when setDecl
+	setDecl  bool
+	declared string
 }
 
 func scenarios(w *world) []scenario {
@@ -1014,6 +1031,24 @@ func scenarios(w *world) []scenario {
 		{name: "addr-remote-wrong-ip", path: func(u string) string { return baseDir + "/FS_REMOTE_127.0.0.2_19618_" + u }, remote: true, peer: p4},
 		{name: "addr-remote-hostname-peer", path: func(u string) string { return baseDir + "/FS_REMOTE_127.0.0.1_19618_" + u }, remote: true, peer: peers[7]},
 		{name: "addr-names-client-own-endpoint", path: func(u string) string { return baseDir + "/FS_127.0.0.1_40000_" + u }, peer: p4},
+		// --- declared (Stream.SetPeerAddr) vs live (RemoteAddr) endpoint: only the live one counts
+		{name: "declared-differs-name-live", path: func(u string) string { return baseDir + "/FS_127.0.0.1_19618_" + u }, peer: p4, setDecl: true, declared: "<10.9.8.7:9618>"},
+		{name: "declared-differs-name-live-remote", path: func(u string) string { return baseDir + "/FS_REMOTE_127.0.0.1_19618_" + u }, remote: true, peer: p4, setDecl: true, declared: "<10.9.8.7:9618?sock=abc>"},
+		{name: "declared-differs-name-declared", path: func(u string) string { return baseDir + "/FS_10.9.8.7_9618_" + u }, peer: p4, setDecl: true, declared: "<10.9.8.7:9618>"},
+		{name: "declared-differs-name-declared-remote", path: func(u string) string { return baseDir + "/FS_REMOTE_10.9.8.7_9618_" + u }, remote: true, peer: p4, setDecl: true, declared: "<10.9.8.7:9618>"},
+		{name: "declared-bare-name-declared", path: func(u string) string { return baseDir + "/FS_10.9.8.7_9618_" + u }, peer: p4, setDecl: true, declared: "10.9.8.7:9618"},
+		{name: "declared-params-name-declared", path: func(u string) string { return baseDir + "/FS_REMOTE_10.9.8.7_9618_" + u }, remote: true, peer: p4, setDecl: true, declared: "<10.9.8.7:9618?addrs=10.9.8.7-9618&sock=x>"},
+		{name: "declared-v6-name-declared", path: func(u string) string { return baseDir + "/FS_REMOTE_::1_9618_" + u }, remote: true, peer: p4, setDecl: true, declared: "<[::1]:9618>"},
+		{name: "declared-differs-name-neither", path: func(u string) string { return baseDir + "/FS_192.168.1.254_9618_" + u }, peer: p4, setDecl: true, declared: "<10.9.8.7:9618>"},
+		{name: "declared-same-port-other-ip-name-declared", path: func(u string) string { return baseDir + "/FS_10.9.8.7_19618_" + u }, peer: p4, setDecl: true, declared: "<10.9.8.7:19618>"},
+		{name: "declared-same-ip-other-port-name-declared", path: func(u string) string { return baseDir + "/FS_127.0.0.1_9618_" + u }, peer: p4, setDecl: true, declared: "<127.0.0.1:9618>"},
+		{name: "declared-equal-name-live", path: func(u string) string { return baseDir + "/FS_127.0.0.1_19618_" + u }, peer: p4, setDecl: true, declared: "<127.0.0.1:19618>"},
+		{name: "declared-unparsable-name-live", path: func(u string) string { return baseDir + "/FS_127.0.0.1_19618_" + u }, peer: p4, setDecl: true, declared: "<not an address>"},
+		{name: "declared-hostname-name-live", path: func(u string) string { return baseDir + "/FS_REMOTE_127.0.0.1_19618_" + u }, remote: true, peer: p4, setDecl: true, declared: "<cm.example.org:9618>"},
+		{name: "declared-empty-name-live", path: func(u string) string { return baseDir + "/FS_127.0.0.1_19618_" + u }, peer: p4, setDecl: true, declared: ""},
+		{name: "declared-only-no-live-address-name-declared", path: func(u string) string { return baseDir + "/FS_10.9.8.7_9618_" + u }, peer: peers[1], setDecl: true, declared: "<10.9.8.7:9618>"},
+		{name: "declared-only-nil-live-address-name-declared", path: func(u string) string { return baseDir + "/FS_REMOTE_10.9.8.7_9618_" + u }, remote: true, peer: peers[0], setDecl: true, declared: "<10.9.8.7:9618>"},
+		{name: "declared-differs-historical-name", path: func(u string) string { return baseDir + "/FS_" + u }, peer: p4, setDecl: true, declared: "<10.9.8.7:9618>"},
 		{name: "addr-no-peer-address", path: func(u string) string { return baseDir + "/FS_127.0.0.1_19618_" + u }, peer: peers[1]},
 		{name: "remote-name-in-local-mode", path: func(u string) string { return baseDir + "/FS_REMOTE_h_42_" + u }},
 		{name: "local-name-in-remote-mode", path: func(u string) string { return baseDir + "/FS_" + u }, remote: true},
@@ -1054,7 +1089,8 @@ func section_exchange(c *core.Ctx, w *world) {
 	scs := scenarios(w)
 	mk := func(s scenario, s1, s2 string) exch {
 		u := uniq()
-		e := exch{Kind: "exch", Tok: w.tok, Name: s.name, Path: hx(s.path(u)), Remote: s.remote, Peer: s.peer, Step1: s1, Step2: s2, Pre: s.pre}
+		e := exch{Kind: "exch", Tok: w.tok, Name: s.name, Path: hx(s.path(u)), Remote: s.remote, Peer: s.peer, Step1: s1, Step2: s2, Pre: s.pre,
+			SetDeclared: s.setDecl, Declared: s.declared}
 		if s.pre != "" {
 			e.PrePath = s.path(u)
 		}
@@ -1333,7 +1369,7 @@ func quietStdout() func() {
 }
 
 func gen(c *core.Ctx) error {
-	c.Rule("A: validateFSAuthPath/fsAddrLeaf/verifyFSPathEndpoint and filepath.Clean/Dir/Base, net.ParseIP on a catalogue of recognised and near-miss leaves x parents x joiners x peers, exhaustive sequences of <=4 components from {'', '.', '..', tmp, FS_1}, every byte value inside a name, over-long fields and random mutations of accepted paths; compared with the Gallina model and judged by an independent restatement of the accepted shapes. B: the whole real client exchange against a raw-wire scripted server (9 ways to deliver the path x 12 ways to continue/end) for 38 path scenarios, with filesystem snapshots (token-named entries of /tmp, a sandbox tree, extra targets) before / at reply / after. C: the real server against 22 kinds of object left at its path. non-trivial = accepted path, exchange that created a directory, accepted server verification")
+	c.Rule("A: validateFSAuthPath/fsAddrLeaf/verifyFSPathEndpoint and filepath.Clean/Dir/Base, net.ParseIP on a catalogue of recognised and near-miss leaves x parents x joiners x peers, exhaustive sequences of <=4 components from {'', '.', '..', tmp, FS_1}, every byte value inside a name, over-long fields and random mutations of accepted paths; compared with the Gallina model and judged by an independent restatement of the accepted shapes. B: the whole real client exchange against a raw-wire scripted server (9 ways to deliver the path x 12 ways to continue/end) for 55 path scenarios (17 of them with a declared stream peer address, Stream.SetPeerAddr, that differs from / equals / is not an address / is empty, against names of the live, the declared-only or neither endpoint), with filesystem snapshots (token-named entries of /tmp, a sandbox tree, extra targets) before / at reply / after. C: the real server against 22 kinds of object left at its path. non-trivial = accepted path, exchange that created a directory, accepted server verification")
 	c.Assume("kernel path resolution of os.Root (openat2/RESOLVE_BENEATH) and the absence of concurrent symlink swaps under /tmp are assumed, not checked")
 	c.Assume("the harness runs as root: a directory owned by another user is produced by chown; a client that is a different unprivileged user is not exercised")
 	c.Assume("os.OpenRoot(/tmp) failing is modelled but cannot be provoked on the shared /tmp")
